@@ -36,13 +36,16 @@ Assumed dependency contracts (trusted base; the `dep:` names actually used are l
     float64 when on); a requested dtype is canonicalised (float64 -> float32 when x64 is off).
   * jnp.arange(m): 0..m-1 (empty for m <= 0); integer + and * act element-wise.
   * a.at[idx].set(v): functional update; negative indices wrap once, indices still out of range are dropped.
+    (In the row-major (r, c) view the existential "some q has idx[q] = r*w + c" is a Hilbert-choice constant q*
+    with the instances q = r, q = c of its defining axiom; a pack may add arithmetic lemmas about q*, each
+    proved as its own `lemma` obligation before it is used.)
   * a.reshape(r, c): row-major, requires r*c = len(a) (obligation `pre`);  M @ v: matrix-vector product
     out[i] = SUM_c M[i, c] * v[c], requires ncols = len(v) (obligation `pre`), dtype promoted.
   * jnp.asarray(array): identity.
   * np.log2 / np.ceil / 2 ** e / int(): log2, pow2 uninterpreted with their defining inequalities
     (pow2(log2 x) = x for x > 0, log2 x >= 0 for x >= 1, pow2 monotone, pow2(e) = 2 pow2(e-1), pow2 of a
     non-negative integer is an integer >= 1); ceil(v) = the integer m with m-1 < v <= m (for v = a/b with b > 0
-    also (m-1) b < a <= m b); floats are exact reals.
+    also (m-1) b < a <= m b); floor(v) = the integer m with m <= v < m+1; floats are exact reals.
   * jnp.vectorize(f, signature=...): f applied independently at every index of the broadcast batch shape,
     core axes last; the output core dimensions must agree with the signature (obligation `pre`).
   * jsl.block_diag(*blocks): block-diagonal matrix of the blocks in the order given.
@@ -300,6 +303,12 @@ class AtIdx(Value):
             qs = fresh_int('qstar')
             for cand in (zi(r), zi(c)):
                 interp.run.assume(z3.Implies(pred(cand, f), pred(qs, f)))
+            hint = getattr(interp.theory, 'at_set_hint', None)
+            if hint is not None:
+                # cut: pack-supplied arithmetic lemmas about the witness, proved on their own (`lemma`) then used
+                for tag, lem in hint(r, c, w, qs, pred(qs, f)):
+                    ob(interp, 'lemma', tag, lem)
+                    interp.run.assume(lem)
             return pred(qs, f)
 
         return Arr(a.length, a.dtype,
@@ -618,6 +627,18 @@ def install(T: Theory):
                 interp.run.assume(z3.Implies(b > 0, z3.And((m - 1) * b < a, a <= m * b)))
         # pow2 is monotone: instance for (v, ceil v)
         interp.run.assume(z3.Implies(x <= z3.ToReal(m), Pow2(x) <= Pow2(z3.ToReal(m))))
+        return z3.ToReal(m)
+
+    @T.ext('numpy.floor')
+    def _floor(interp, v):
+        c = concrete(v)
+        if c is not None:
+            import math
+            return math.floor(c)
+        x = to_real(v)
+        m = fresh_int('floor')
+        interp.run.assume(z3.And(z3.ToReal(m) <= x, x < z3.ToReal(m) + 1))
+        interp.run.assume(z3.Implies(z3.ToReal(m) <= x, Pow2(z3.ToReal(m)) <= Pow2(x)))
         return z3.ToReal(m)
 
     def power(interp, a, b):
